@@ -210,7 +210,8 @@ def create_src_file_exts_regex(input_exts: list[str] = []) -> Pattern[str]:
         EXPRESSIONS.extend(input_exts)
         # Add its expression as an OR and force they match the end of the string
         # \Z, not $: a name that ends in a line break does not end in the suffix
-        return re.compile(rf"(({'\\Z)|('.join(EXPRESSIONS)}\Z))")
+        alternatives = r"\Z)|(".join(EXPRESSIONS)
+        return re.compile(rf"(({alternatives}\Z))")
     except re.error:
         # TODO: Add a warning to the logger
         return re.compile(rf"({DEFAULT}\Z)")
